@@ -45,6 +45,9 @@ type RunResult struct {
 	Stubs        []string       `json:"stubs_used"`
 	SharedWrites map[string]int `json:"shared_writes"`
 	Solver       string         `json:"solver"`
+	Cuts         []string       `json:"cuts"`
+	Decisions    int            `json:"symbolic_decisions"`
+	Params       map[string]int `json:"params"`
 }
 
 func solverLogWriter(cfg *Config, id int) io.Writer {
@@ -81,6 +84,7 @@ func main() {
 		budget    = flag.Duration("budget", 0, "wall-clock budget (0 = none)")
 		trace     = flag.Bool("trace", false, "trace instructions")
 		slog      = flag.String("solver-log", "", "prefix for solver transcript files")
+		params    = flag.String("params", "", "harness parameters name=val,name=val")
 		allPerLab = flag.Bool("all-cex", false, "keep checking a label after the first counterexample")
 	)
 	flag.Parse()
@@ -88,6 +92,14 @@ func main() {
 	cfg := &Config{Harness: *harness, AllocCap: *allocCap, MaxSteps: *maxSteps, Unwind: *unwind, MaxPaths: *maxPaths,
 		Workers: *workers, SolverKind: *solver, TimeoutMs: *timeoutMs, IntMode: *intMode, Samples: *samples, Trace: *trace,
 		SolverLog: *slog, OnePerLab: !*allPerLab}
+	cfg.Params = map[string]int{}
+	for _, kv := range strings.Split(*params, ",") {
+		if i := strings.IndexByte(kv, '='); i > 0 {
+			var v int
+			fmt.Sscan(kv[i+1:], &v)
+			cfg.Params[kv[:i]] = v
+		}
+	}
 	if *budget > 0 {
 		cfg.Deadline = t0.Add(*budget)
 	}
@@ -157,6 +169,9 @@ func main() {
 	}
 	sort.Strings(res.Funcs)
 	res.Stubs = sortedKeys(ex.assumes)
+	res.Cuts = sortedKeys(ex.cuts)
+	res.Decisions = ex.symDecisions
+	res.Params = cfg.Params
 	var labels []string
 	for l := range ex.violations {
 		labels = append(labels, l)
